@@ -311,6 +311,9 @@ def filter_list(items_list, indices_to_remove):
 
 def mask_textline_by_region(baseline, textline, region):
     region_shpl = sg.Polygon(region)
+    if not region_shpl.is_valid:  # has to precede the intersection test, which is unreliable for invalid polygons
+        warnings.warn("Input region contains self-intersections, replacing it with convex hull...")
+        region_shpl = region_shpl.convex_hull
     baseline_shpl = sg.LineString(baseline)
 
     try:
@@ -323,9 +326,6 @@ def mask_textline_by_region(baseline, textline, region):
     if not textline_shpl.is_valid:  # this can happen after merging two lines
         print('Invalid textline encountered, replacing it with convex hull...')
         textline_shpl = textline_shpl.convex_hull
-    if not region_shpl.is_valid:
-        warnings.warn("Input region contains self-intersections, replacing it with convex hull...")
-        region_shpl = region_shpl.convex_hull
     baseline_is = region_shpl.intersection(baseline_shpl)
     textline_is = region_shpl.intersection(textline_shpl)
 
